@@ -92,6 +92,9 @@ def cases(E):
     # "each iteration in its own scope": what the body assigns with `:=` is bound in the iteration's scope, not in the scope the loop was written in
     from vf.props import C08 as c08
     cs += c08.assign_frame_cases(E)
+    # every block / named scope / application / iteration gets a scope object of its own (never an earlier sibling's)
+    from vf.props import C08 as _c08
+    cs += _c08.scope_creation_cases(E)
     return cs
 
 
